@@ -103,6 +103,7 @@ class SurfaceSubdivision(Logger):
             n (int, optional): Number of times the subdivision is applied. Defaults to 1.
         """
         self.triangulate()
+        self.mesh._complete_edges_from_faces() # triangulation adds faces but not their edges
 
         for _ in range(n):
             newMeshData = RawMeshData()
@@ -155,6 +156,7 @@ class SurfaceSubdivision(Logger):
             If the mesh is not triangulated, will triangulate the mesh first.
         """
         self.triangulate()
+        self.mesh._complete_edges_from_faces() # previous steps may have added faces but not their edges
         newMeshData = RawMeshData()
         newMeshData.vertices += self.mesh.vertices
         # cut every edge in half
